@@ -117,6 +117,9 @@ func (m *LinMon[T]) DoClear() {
 // Check compares Values/Size/Empty/Full with the model.
 func (m *LinMon[T]) Check() {
 	c := m.c
+	if !c.Observe() {
+		return
+	}
 	if sz := m.C.Size(); sz != m.n() {
 		c.Fail("size", "", "%s.Size() = %d, model holds %d: %s", m.Name, sz, m.n(), short(m.Model))
 	}
@@ -212,6 +215,7 @@ func runC05(c *core.Ctx) {
 	}
 	id := 0
 	next := func() int { id++; return id }
+	c.SetGaps((i/6)%2 == 1)
 	var m *LinMon[int]
 	switch i % 6 {
 	case 0:
@@ -236,6 +240,8 @@ func runC05(c *core.Ctx) {
 	for s := 0; s < steps; s++ {
 		m.Step(next)
 	}
+	c.ObserveNow()
+	m.Check()
 	// drain: everything left comes out in model order
 	for m.n() > 0 {
 		m.DoTake()
